@@ -23,6 +23,8 @@ import EsbuildModel.Impl.Slots
 import EsbuildModel.Impl.PkgExports
 import EsbuildModel.Impl.SmJoin
 import EsbuildModel.Impl.Shifts
+import EsbuildModel.Impl.Lower2
+import EsbuildModel.Impl.Fold
 
 open EsbuildModel
 
@@ -53,6 +55,9 @@ def dispatch (kernel : String) (args : List String) : String :=
   | "pkgexports" => PkgExports.driver args
   | "smjoin" => SmJoin.driver args
   | "shifts" => Shifts.driver args
+  | "lower2" => Lower2.driver args
+  | "lower2sem" => Lower2.semDriver args
+  | "fold" => Fold.driver args
   | _ => "bad-kernel"
 
 partial def loop (hin hout : IO.FS.Stream) : IO Unit := do
